@@ -300,6 +300,35 @@ pub fn run(args: &Args) {
         if let (Some(d), Some(o)) = (digest_state(base), verify(base)) {
             t.emit(json!({"event":"Digest","origin":format!("intact:{name}"),"d":d,"outcome":o}));
         }
+        // bytes behind the payload are payload (the file ends where it ends, whatever a size field announces), and a size
+        // field in the signature header that announces less or more changes no digest
+        let mut variants: Vec<(String, Vec<u8>)> = vec![];
+        for extra in [1usize, 26] {
+            let mut m = base.clone();
+            m.extend((0..extra).map(|i| (i as u8).wrapping_mul(37).wrapping_add(1)));
+            variants.push((format!("trail{extra}"), m));
+        }
+        for (tag, width) in [(1000u32, 4usize), (270, 8)] {
+            if let Some(e) = lay.sig.find(tag) {
+                let at = lay.sig.store_at + e.offset as usize;
+                if e.count == 1 && at + width <= base.len() {
+                    for (what, delta) in [("less", -1i64), ("half", i64::MIN), ("more", 5)] {
+                        let mut m = base.clone();
+                        let cur = m[at..at + width].iter().fold(0u64, |a, b| (a << 8) | *b as u64);
+                        let new = if delta == i64::MIN { cur / 2 } else { (cur as i64 + delta).max(0) as u64 };
+                        for k in 0..width { m[at + k] = (new >> (8 * (width - 1 - k))) as u8; }
+                        variants.push((format!("size{tag}-{what}"), m));
+                    }
+                }
+            }
+        }
+        for (what, m) in variants {
+            match (digest_state(&m), verify(&m)) {
+                (Some(d), Some(o)) => t.emit(json!({"event":"Digest","origin":format!("{what}:{name}"),"d":d,"outcome":o})),
+                (_, None) => t.emit(json!({"event":"ParseErr","origin":format!("{what}:{name}")})),
+                (None, Some(o)) => t.emit(json!({"event":"Undecodable","origin":format!("{what}:{name}"),"outcome":o})),
+            };
+        }
         let total_bits = (base.len() - 96) * 8;
         let exhaustive = total_bits <= nflips;
         let n = if exhaustive { total_bits } else { nflips };
